@@ -531,3 +531,25 @@ Proof.
   apply flat_of_fwf. apply sort_rows_wf. exact Hwf.
 Qed.
 End SortRows.
+
+(* ------------------------------------------------------------------ statements as used by Properties_C10.v *)
+Theorem ll_sort_row_spec {S : Scalar} (P Q : marr nat) (P' Q' : marr S) (L : row S) :
+  length P = length P' ->
+  ll_sort_row (length P) (length L) (P ++ filled (map fst L) ++ Q, P' ++ filled (map snd L) ++ Q')
+  = Done (P ++ filled (map fst (sort_row L)) ++ Q, P' ++ filled (map snd (sort_row L)) ++ Q').
+Proof. intro H. exact (ll_sort_row_ok P Q P' Q' (length P) (length L) eq_refl (eq_sym H) L eq_refl). Qed.
+
+Theorem flat_roundtrip {S : Scalar} :
+  (forall A : crs S, unflat (flat_of A) = A) /\
+  (forall A : crs S, wf A = true -> fwf (flat_of A)) /\
+  (forall F : fcrs S, fwf F -> flat_of (unflat F) = F).
+Proof. split; [exact unflat_flat|split; [exact flat_of_fwf|exact flat_unflat]]. Qed.
+
+(* the checks are not vacuous *)
+Lemma mrd_fresh_uninit {X} n i : i < n -> mrd (@fresh X n) i = UninitRead.
+Proof.
+  intro H. unfold mrd, fresh. rewrite (nth_error_nth' _ None) by (rewrite repeat_length; exact H).
+  rewrite nth_repeat0. reflexivity.
+Qed.
+Lemma mrd_oob {X} (a : marr X) i : length a <= i -> mrd a i = OutOfBounds.
+Proof. intro H. unfold mrd. apply nth_error_None in H. rewrite H. reflexivity. Qed.
